@@ -310,7 +310,7 @@ Lemma stages_events_good o i s :
 Proof.
   cbn zeta. unfold run_stages. cbn [st_p0 st_p1 st_p2 st_ev_a st_ev_b st_ev_c].
   set (p0 := map (fun sh => fst (get_info sh)) (i_shards i)).
-  set (p1 := gc o (i_active i) p0).
+  set (p1 := recover (gc o (i_active i) p0)).
   pose proof (alleviate_inv o (global_status (i_explore i) p0) (not_assignable (i_active i) (fst (fst (fst (alleviate o p1 s))))) p1 s) as Ha. cbn zeta in Ha.
   set (ra := alleviate o p1 s) in *.
   pose proof (assign_inv o p1 (i_active i) (global_status (i_explore i) p0) _ (snd ra) _ Ha) as Hb. cbn zeta in Hb.
